@@ -119,16 +119,27 @@ def class_outcomes(repo, extra_atoms=()):
         if n.kind == 'stmt':
           continue
         raise Undecided('statement not understood in GeoAssignments.__init__: %s' % n.text())
-      if not (isinstance(st, ast.Assign) and len(st.targets) == 1):
+      if isinstance(st, (ast.FunctionDef, ast.ClassDef)):
+        continue        # a local helper: its calls have been inlined where it is used
+      if not isinstance(st, ast.Assign):
         raise Undecided('statement not understood in GeoAssignments.__init__: %s' % norm(st))
-      v = boolset.eval_set(env, st.value, lookup)
-      t = st.targets[0]
-      if isinstance(t, ast.Name):
-        local[t.id] = v
-      elif isinstance(t, ast.Attribute) and isinstance(t.value, ast.Name) and t.value.id == selfn:
-        fields[t.attr] = v
-      else:
-        raise Undecided('target not understood: %s' % norm(t))
+      # pairs (target, value): chained assignment a = b = v and parallel assignment x, y = v, w
+      pairs = []
+      for t in st.targets:
+        if isinstance(t, (ast.Tuple, ast.List)) and isinstance(st.value, (ast.Tuple, ast.List)) and len(t.elts) == len(st.value.elts):
+          pairs += list(zip(t.elts, st.value.elts))
+        elif isinstance(t, (ast.Tuple, ast.List)):
+          raise Undecided('unpacking not understood in GeoAssignments.__init__: %s' % norm(st)[:80])
+        else:
+          pairs.append((t, st.value))
+      vals = [boolset.eval_set(env, dataflow.fold(dataflow.clone(v_)), lookup) for _, v_ in pairs]      # right-hand sides first
+      for (t, _), v in zip(pairs, vals):
+        if isinstance(t, ast.Name):
+          local[t.id] = v
+        elif isinstance(t, ast.Attribute) and isinstance(t.value, ast.Name) and t.value.id == selfn:
+          fields[t.attr] = v
+        else:
+          raise Undecided('target not understood: %s' % norm(t))
     outcomes.append((H, dict(fields)))
   if not outcomes:
     raise Undecided('GeoAssignments.__init__ has no normal path')
@@ -180,7 +191,8 @@ def r1_partition(repo, rep):
 GUARDS = [
     ('geo-column', lambda t: re.search(r"'geo' not in .*columns", t) or re.search(r"'geo' in .*columns", t)),
     ('duplicate-columns', lambda t: 'columns.duplicated()' in t or re.search(r'columns\)?\.is_unique', t)),
-    ('value-columns', lambda t: ('issubset' in t or '<=' in t or 'not in' in t) and 'columns' in t and "'control'" in t and "'treatment'" in t and "'exclude'" in t),
+    ('value-columns', lambda t: ('issubset' in t or 'issuperset' in t or '<=' in t or '>=' in t or 'not in' in t or ' - ' in t or '.difference(' in t)
+     and 'columns' in t and "'control'" in t and "'treatment'" in t and "'exclude'" in t),
     ('duplicate-ids', lambda t: re.search(r"(\['geo'\]|\.geo)\.duplicated\(\)", t) or re.search(r"(\['geo'\]|\.geo)\.is_unique", t)
      or re.search(r"(\['geo'\]|\.geo)\.nunique\(\)", t)),
     ('zero-one', lambda t: '{0, 1}' in t or '[0, 1]' in t or '(0, 1)' in t),
@@ -196,6 +208,8 @@ def r2_validation(repo, rep):
   rep.fn(f)
   g = cfgmod.CFG(f.node)
   rd = dataflow.Reaching(g)
+  from mmsa.types import module_consts
+  rd.consts = module_consts(f.module)
   selfn, dfp = f.params[0], f.params[1]
   stores = [n for n in g.nodes if n.kind == 'stmt' and isinstance(n.ast, ast.Assign)
             and any(norm(t) == '%s.data' % selfn for t in n.ast.targets)]
@@ -243,11 +257,20 @@ def r2_validation(repo, rep):
                       f.loc(n.expr))
         classes['zero-one'] = [(n, lab)]
   missing = [name for name, _ in GUARDS if name not in classes]
-  n_dom = sum(1 for n, lab, r in guards if n in dom)
+  n_dom = sum(1 for n, lab, r in guards if n in dom or any(h.kind == 'for' and n in g.loop_body_nodes(h) for h in dom))
+  def on_every_path(n0):
+    """The guard dominates the acceptance, or sits in a loop that does and is executed in each of its iterations
+    (a check applied to every column / row in turn)."""
+    if n0 in dom:
+      return True
+    for h in dom:
+      if h.kind == 'for' and n0 in g.loop_body_nodes(h) and g.iteration_skipping(h, [n0]) is None:
+        return True
+    return False
   for name, _ in GUARDS:
     if name in classes:
       n0 = classes[name][0][0]
-      rep.check(n0 in dom, 'R2/validation', 'guard %s dominates acceptance (self.data = ...)' % name, f.qualname,
+      rep.check(on_every_path(n0), 'R2/validation', 'guard %s dominates acceptance (self.data = ...)' % name, f.qualname,
                 'guard %s: %s' % (name, norm(n0.expr)), 'the %s check does not lie on every path to the acceptance of the table' % name,
                 f.loc(n0.expr))
   if missing:
@@ -258,25 +281,15 @@ def r2_validation(repo, rep):
     else:
       rep.undecided('R2/validation', 'guards ' + ', '.join(missing), 'no guard of this kind recognised although %d guards dominate the store' % n_dom, f.loc())
   rep.floor('rejecting guards in GeoEligibility.__init__', len(guards), 6)
-  # input copied before anything else touches it
-  first_use = None
-  copied = False
-  for n in g.nodes:
-    if n.kind == 'stmt' and isinstance(n.ast, ast.Assign) and len(n.ast.targets) == 1 and norm(n.ast.targets[0]) == dfp:
-      if re.match(r'%s\.copy\(\)' % re.escape(dfp), norm(n.ast.value)) and n in dom:
-        copied = True
-      break
-  muts = []
-  for sub in walk_no_nested(f.node):
-    if isinstance(sub, ast.Call) and au.kwarg(sub, 'inplace') is not None and au.is_const(au.kwarg(sub, 'inplace'), True):
-      muts.append(sub)
-    if isinstance(sub, (ast.Assign, ast.AugAssign)):
-      for t in (sub.targets if isinstance(sub, ast.Assign) else [sub.target]):
-        if isinstance(t, (ast.Attribute, ast.Subscript)) and norm(t).split('.')[0].split('[')[0] == dfp:
-          muts.append(sub)
-  rep.check(copied or not muts, 'R2/validation', 'the caller\'s table is copied before it is modified (%d in-place edits)' % len(muts),
+  # the caller's table is never edited in place: every write effect (attribute/item store, inplace=True call) lands on an
+  # object that is a fresh copy (receiver resolved through aliases and re-bindings)
+  from mmsa.props import c10
+  _, _, effs = c10.function_effects(f)
+  bad = [e for e, recv, c in effs if c == 'param:' + dfp]
+  n_writes = sum(1 for e, recv, c in effs if c in ('fresh', 'param:' + dfp))
+  rep.check(not bad, 'R2/validation', 'the caller\'s table is copied before it is modified (%d in-place edits, all on a copy)' % n_writes,
             f.qualname, 'df = df.copy() missing', 'GeoEligibility.__init__ modifies the caller\'s DataFrame in place (%s) without copying it first'
-            % '; '.join(norm(m)[:50] for m in muts[:3]), f.loc())
+            % '; '.join(norm(e.stmt)[:50] for e in bad[:3]), f.loc(bad[0].stmt) if bad else f.loc())
   # canonicalisation to str dominates the uniqueness guard and the store
   canon = [n for n in g.nodes if n.kind == 'stmt' and isinstance(n.ast, ast.Assign)
            and re.search(r"(\.geo|\['geo'\])$", norm(n.ast.targets[0])) and re.search(r"astype\(('str'|str)\)", norm(n.ast.value))]
@@ -403,6 +416,9 @@ def r3_selection(repo, rep):
       txt = norm(rd.expand(r, args[pname], keep=(geos,))[0])
       cols = set(re.findall(r"'(control|treatment|exclude)'", txt))
       good = cols == {col} and re.search(r"== 1\b", txt) and '.index[' in txt
+      if not good and not cols:
+        rep.undecided('R3/selection', 'GeoAssignments argument %s' % pname, 'its construction is not visible here: %s' % txt[:60], f.loc(call))
+        continue
       rep.check(bool(good), 'R3/selection', 'set %s = labels of rows with %s == 1' % (pname, col), f.qualname,
                 '%s=%s' % (pname, txt), 'membership set %s is built from %s, not from the labels of rows whose %s entry equals 1'
                 % (pname, txt, col), f.loc(call))
